@@ -35,6 +35,8 @@ func init() {
 			{ID: "R09k", Floor: 1, Doc: "no division or remainder by a value that can be zero: every integer `/` or `%` in the library whose divisor is not a constant is behind a comparison that excludes zero (a width or count decoded from an index is attacker-chosen)", Run: ruleR09k},
 			{ID: "R09l", Floor: 2, Doc: "parser limits are used as configured: ApplyOptions sets MaxAllowedHeaderSize/MaxAllowedSectionSize only as initial defaults, before the caller's options run, and never rewrites them afterwards (a limit of 0 means 'nothing may be buffered', not 'use the default')", Run: ruleR09l},
 			{ID: "R09o", Floor: 10, Doc: "no NEW unchecked type assertion: a single-value `x.(T)` in the library panics when the dynamic type is another one (an index of the other codec, a reader without the method); the sites of the pinned tree are tabled (typeAssertBaseline), any other must use the comma-ok form", Run: ruleR09o},
+			{ID: "R09p", Floor: 2, Doc: "ReadOnly.AllKeysChan and ReadOnly.Roots decode the payload header in the call that uses it and test the error first: a header taken from a cache another call was meant to fill can be nil", Run: ruleR09p},
+			{ID: "R09q", Floor: 1, Doc: "no command of the CLI changes a parser limit for itself: the default bounds are what keeps a crafted length prefix from being allocated (= R19i)", Run: ruleR19i},
 			{ID: "R09f", Floor: 1, Doc: "singleWidthIndex.Unmarshal: bucket bytes come from an exact-length read of dataLen with its error tested", Run: ruleR09f},
 			{ID: "R09m", Floor: 2, Doc: "the CARv2 payload is read through a reader bounded by the header-declared size that can never run negative or past the source (= R14a)", Run: ruleR14a},
 			{ID: "R09n", Floor: 1, Doc: "a reader that has released its pooled buffer does not touch it again: the field is cleared with the release (polling a drained reader once more must answer io.EOF, not panic in bufio) (= R01m)", Run: ruleR01m},
@@ -238,7 +240,7 @@ func ruleR09a(c *Ctx, r *Report) {
 			if o.Kind == "call" {
 				cl, idx := callOf(o.Val)
 				if cl != nil {
-					if sc := cl.Common().StaticCallee(); sc != nil && sc.Blocks != nil {
+					if sc := staticTarget(cl.Common()); sc != nil && sc.Blocks != nil {
 						if _, tainted, _ := boundedResult(sc, idx); tainted {
 							viaCall = append(viaCall, cl)
 						}
@@ -255,7 +257,7 @@ func ruleR09a(c *Ctx, r *Report) {
 		// sizes coming out of a bounded summary
 		for _, cl := range viaCall {
 			_, idx := callOf(extractOrSelf(cl, s.size))
-			j, _, bounded := boundedResult(cl.Common().StaticCallee(), idx)
+			j, _, bounded := boundedResult(staticTarget(cl.Common()), idx)
 			if !bounded {
 				bad = fmt.Sprintf("the size comes from %s, which returns an input-decoded length without bounding it", funcKey(calleeFunc(cl.Common())))
 				continue
@@ -276,7 +278,7 @@ func ruleR09a(c *Ctx, r *Report) {
 				}
 				if o.Kind == "call" {
 					if cl, idx := callOf(o.Val); cl != nil {
-						if sc := cl.Common().StaticCallee(); sc != nil && sc.Blocks != nil {
+						if sc := staticTarget(cl.Common()); sc != nil && sc.Blocks != nil {
 							if _, tainted, _ := boundedResult(sc, idx); tainted {
 								inputDerived = true
 							}
@@ -527,7 +529,7 @@ func limitKindOf(c *Ctx, fn *ssa.Function, v ssa.Value, depth int) (string, stri
 				var bad string
 				eachInstr(g, func(in ssa.Instruction) {
 					ci, ok := in.(ssa.CallInstruction)
-					if !ok || ci.Common().StaticCallee() != owner {
+					if !ok || staticTarget(ci.Common()) != owner {
 						return
 					}
 					n++
@@ -696,7 +698,7 @@ var panicTable = map[string]panicDischarge{
 				eachInstr(g, func(in ssa.Instruction) {
 					switch x := in.(type) {
 					case ssa.CallInstruction:
-						if x.Common().StaticCallee() == fn {
+						if staticTarget(x.Common()) == fn {
 							if k, ok := constInt(x.Common().Args[2]); !ok || (k != 0 && k != 1) {
 								bad = "call at " + c.Pos(in.Pos()) + " passes a whence that is not the constant SeekStart/SeekCurrent"
 							}
@@ -1128,7 +1130,7 @@ func ruleR09k(c *Ctx, r *Report) {
 				}
 				// another load of the same field of the same object
 				if dfv != nil {
-					if fv, base := fieldOfLoad(cv); fv == dfv && canon(base) == canon(dbase) {
+					if fv, base := fieldOfLoad(cv); fv == dfv && (canon(base) == canon(dbase) || structCopyOf(dbase, base, dfv)) {
 						return true
 					}
 				}
@@ -1331,6 +1333,11 @@ func uncheckedAsserts(c *Ctx) map[string]string {
 			if !ta.Pos().IsValid() {
 				return
 			}
+			// `x.(T)` with T the static type of x is the nil check go/ssa emits for a method value
+			// taken from an interface (`bs.PutMany`), not a narrowing assertion
+			if types.Identical(ta.AssertedType, ta.X.Type()) {
+				return
+			}
 			k := fnKey(rootFuncOf(fn)) + " -> " + assertedTypeKey(ta.AssertedType)
 			out[k] = c.Pos(ta.Pos())
 		})
@@ -1393,4 +1400,34 @@ func assertedTypeKey(t types.Type) string {
 	}
 	sort.Strings(ms)
 	return "interface{" + strings.Join(ms, "; ") + "}"
+}
+
+// structCopyOf: dst is a local struct that is only ever assigned, as a whole, the value of src
+// (a by-value receiver or parameter of an inlined helper), and whose field f is never assigned.
+func structCopyOf(dst, src ssa.Value, f *types.Var) bool {
+	al, ok := dst.(*ssa.Alloc)
+	if !ok || al.Referrers() == nil {
+		return false
+	}
+	n := 0
+	for _, ref := range *al.Referrers() {
+		switch x := ref.(type) {
+		case *ssa.Store:
+			if x.Addr != ssa.Value(al) {
+				return false
+			}
+			for _, leaf := range phiLeaves(x.Val) {
+				l, ok := leaf.(*ssa.UnOp)
+				if !ok || l.Op != token.MUL || canon(l.X) != canon(src) && l.X != src {
+					return false
+				}
+			}
+			n++
+		case *ssa.FieldAddr:
+			if fieldVar(x.X.Type(), x.Field) == f && len(storesTo(x)) > 0 {
+				return false
+			}
+		}
+	}
+	return n > 0
 }
